@@ -276,6 +276,15 @@ def variants(name, cls):
             out.append((f'{pn}={d + 1}', dict(extra={pn: d + 1})))  # integer-valued parameters stay integers (exponents)
     if len(out) > 4:
         out = out[:4]
+    if name in ('heatNd_unforced', 'heatNd_forced', 'advectionNd'):
+        # the solver types, boundary conditions, dimensions and stencil variants the finite-difference base class offers
+        out = out[:2]
+        for tag, kw in (('GMRES', dict(solver_type='GMRES')), ('CG', dict(solver_type='CG')), ('periodic-2D', dict(nvars=(8, 8), bc='periodic')),
+                        ('dirichlet-2D-order4', dict(nvars=(7, 7), bc='dirichlet-zero', order=4)), ('neumann', dict(nvars=(16,), bc='neumann-zero')),
+                        ('periodic-order6-GMRES', dict(nvars=(32,), bc='periodic', order=6, solver_type='GMRES'))):
+            if name == 'advectionNd' and ('CG' in tag or 'dirichlet' in tag or 'neumann' in tag):
+                continue  # CG needs a symmetric operator; the advection class is periodic only
+            out.append((tag, dict(extra=kw)))
     if hasattr(cls, 'get_switching_info') and name in ('DiscontinuousTestODE',):
         out.append(('t_switch=1.2', dict(event_time=1.2)))
         out.append(('t_switch=0.7', dict(event_time=0.7)))
